@@ -102,7 +102,8 @@ class C08Check(Check):
     """same pipeline; a stronger shrinker so that a known pattern is only recognised in its 1-minimal canonical form"""
 
     def shrink(self, case_ops, hbin, exe, exe_args, budget=300, only_prop=False, want_prop=False):
-        cur = Check.shrink(self, case_ops, hbin, exe, exe_args, budget=budget, only_prop=only_prop or want_prop)
+        only_prop = only_prop or want_prop
+        cur = Check.shrink(self, case_ops, hbin, exe, exe_args, budget=budget, only_prop=only_prop)
         runs = 0
 
         def eliminate(cur):
@@ -113,7 +114,7 @@ class C08Check(Check):
                 for i in range(len(cur)):
                     cand = cur[:i] + cur[i + 1:]
                     runs += 1
-                    if cand and self._fails(cand, hbin, exe, exe_args):
+                    if cand and self._fails(cand, hbin, exe, exe_args, only_prop):
                         cur = cand
                         changed = True
                         break
@@ -141,14 +142,14 @@ class C08Check(Check):
                 if not valid:
                     continue
                 runs += 1
-                if self._fails(cand, hbin, exe, exe_args):
+                if self._fails(cand, hbin, exe, exe_args, only_prop):
                     cur = eliminate(cand)
                     progress = True
                     break
         # canonical observer: if the failure is also visible through a plain `len`, prefer that form
-        if cur and cur[-1] != "len":
+        if cur and cur[-1] != "len" and not only_prop:
             cand = cur[:-1] + ["len"]
-            if self._fails(cand, hbin, exe, exe_args):
+            if self._fails(cand, hbin, exe, exe_args, only_prop):
                 cur = eliminate(cand)
         return cur
 
